@@ -42,7 +42,7 @@ class CaseTimeout(BaseException):
     """Raised by the per-case alarm; BaseException so that no `except Exception` around a library call swallows it."""
 
 
-CASE_LIMIT = float(os.environ.get('VERIF_CASE_LIMIT', '300'))
+CASE_LIMIT = float(os.environ.get('VERIF_CASE_LIMIT', '180'))
 
 
 def _on_alarm(signum, frame):
@@ -355,6 +355,10 @@ def _replay_main(modname, tier, items, rundir, stage_dir, tag):
         mod = importlib.import_module(modname)
         legs = {l.name: l for l in mod.legs(tier)}
         inflight = _Inflight(os.path.join(rundir, '%s.inflight' % tag))
+        import logging
+        logging.getLogger('be.kuleuven.dtai.distance').setLevel(logging.CRITICAL)
+        dn = os.open(os.devnull, os.O_WRONLY)
+        os.dup2(dn, 1)
         results = []
         for path, item in items:
             leg = legs.get(item.get('leg'))
@@ -620,7 +624,7 @@ def main(mod, tier, replay=None):
         for ln in known_lines:
             print(ln)
         print('%s %s seed=%d: %d cases, %d distinct non-trivial, %.1fs%s'
-              % (prop, tier, seed, evaluations, len(nt), time.time() - t0,
+              % (prop, tier, seed, ev['coverage']['evaluations'], ev['coverage']['distinct_nontrivial'], time.time() - t0,
                  (' [generator shortfalls: %s]' % ', '.join(shortfalls)) if shortfalls else ''))
         if violations:
             for pth in violations:
